@@ -36,7 +36,7 @@ func init() {
 			return core.Verdict{Status: "skip", Detail: "creation error: " + cerr.Error(), Features: feats}
 		}
 		evals := 1
-		tol := oracle.DefaultTol(Scale(c.Series))
+		tol := TolOf(c)
 		if wf := oracle.WellFormed(rng, expr.Type(), oracle.Window{Start: c.Start, End: c.End, Step: c.Step}); wf != "" {
 			return core.Verdict{Status: "violation", Detail: fmt.Sprintf("query: %s\nwindow %d..%d step %d\nill-formed range result: %s\n%s", c.Query, c.Start, c.End, c.Step, wf, rng), Features: feats}
 		}
